@@ -1410,7 +1410,7 @@ def run(chk):
             raise
     chk.cov['xval_wall_s'] = round(time.time() - t0, 1)
     t0 = time.time()
-    xdocs = stream(chk, 1000000 if thorough else 36000)
+    xdocs = stream(chk, 400000 if thorough else 36000)
     chk.cov['stream_wall_s'] = round(time.time() - t0, 1)
     try:
         stream_docs_through_lean(chk, xdocs)
@@ -1422,7 +1422,7 @@ def run(chk):
     # request terminates".  Records created on first use (projects, users, consumer types, consumers, aggregates,
     # custom names) are looked up and then inserted; the request that loses such a race must not answer 500.
     from harness import conc
-    conc.run_races(chk, ['C15'], 96 if not thorough else 1500, 80 if not thorough else 400, RACES)
+    conc.run_races(chk, ['C15'], 96 if not thorough else 600, 80 if not thorough else 300, RACES)
     chk.cov['exhaustive'] = False
     chk.cov['rule'] = (
         'stage 2: per schema of placement.schemas.* 1 valid document in 4 (type-directed) and 3 grammar mutants in 4 '
